@@ -6,9 +6,9 @@
 EXTENDS Crc, Json, IOUtils, TLC
 KAT == ndJsonDeserialize(IOEnv.KAT_FILE)
 VARIABLES k, verdict
-Init == k \in 1..Len(KAT) /\ verdict = "pending"
-Next == /\ verdict = "pending" /\ UNCHANGED k
-        /\ LET e == KAT[k]
+\* NB: everything is computed inside one expression-level LET: TLC does not cache the definitions of a LET
+\* that encloses primed conjuncts (action level), each use would recompute the CRCs.
+Run(kk) == LET e == KAT[kk]
                T == CrcTable(e.poly)
                b == CrcBitwise(e.poly, e.m, e.init, e.final)
                t == CrcTabled(e.poly, e.m, e.init, e.final)
@@ -17,6 +17,8 @@ Next == /\ verdict = "pending" /\ UNCHANGED k
                ok == /\ b = e.crc /\ t = e.crc /\ z = e.crc
                      /\ CrcWidth(e.poly) = e.w
                      /\ back = e.init
-           IN /\ verdict' = IF ok THEN "ok" ELSE "bad"
-              /\ PrintT(ToJson([k |-> k, verdict |-> verdict', got |-> b, tabled |-> t, back |-> back]))
+               v == IF ok THEN "ok" ELSE "bad"
+           IN IF PrintT(ToJson([k |-> kk, verdict |-> v, got |-> b, tabled |-> t, back |-> back])) THEN v ELSE v
+Init == k \in 1..Len(KAT) /\ verdict = "pending"
+Next == verdict = "pending" /\ UNCHANGED k /\ verdict' = Run(k)
 ====
